@@ -20,17 +20,17 @@ Qed.
 
 (* ---------------------------------------------------------------- small evaluation facts *)
 Lemma serr_vs_gerr guard s v :
-  pure s = true -> is_gerr_val v = true -> converted_from guard s v = Ok false.
+  is_gerr_val s = false -> is_gerr_val v = true -> converted_from guard s v = Ok false.
 Proof.
   intros P G. unfold converted_from. destruct s; simpl in *; try discriminate; try reflexivity.
   destruct (guard && negb cmp); [reflexivity|]. destruct v; simpl in *; try discriminate; reflexivity.
 Qed.
 
 Lemma later_vs_gerr guard l v :
-  forallb pure l = true -> is_gerr_val v = true -> later_match guard l v = Ok false.
+  forallb fgn l = true -> is_gerr_val v = true -> later_match guard l v = Ok false.
 Proof.
   induction l as [|s r IH]; intros P G; simpl; [reflexivity|].
-  simpl in P. apply andb_true_iff in P as [P1 P2].
+  simpl in P. apply andb_true_iff in P as [P1 P2]. apply negb_true_iff in P1.
   rewrite (serr_vs_gerr guard s v P1 G). cbn [bind_true]. apply IH; assumption.
 Qed.
 
@@ -296,7 +296,7 @@ Section IsGG.
     unfold errors_is_gen.
     assert (Na : is_nil va = false) by (destruct va; simpl in Aa; try discriminate; reflexivity).
     assert (Nb : is_nil vb = false) by (destruct vb; simpl in Ab; try discriminate; reflexivity).
-    assert (Cb : comparable vb = true) by (destruct vb; simpl in Ab; try discriminate; reflexivity).
+    assert (Cb : type_comparable vb = true) by (destruct vb; simpl in Ab; try discriminate; reflexivity).
     rewrite Na, Nb, Cb. simpl orb. cbv iota.
     unfold is_fuel.
     replace (4 + length st + val_depth va + val_depth vb)
@@ -336,7 +336,7 @@ Section IsGG.
     unfold errors_is_gen.
     assert (Na : is_nil va = false) by (destruct va; simpl in Hi; try discriminate; reflexivity).
     assert (Nb : is_nil vb = false) by (destruct vb; simpl in Ab; try discriminate; reflexivity).
-    assert (Cb : comparable vb = true) by (destruct vb; simpl in Ab; try discriminate; reflexivity).
+    assert (Cb : type_comparable vb = true) by (destruct vb; simpl in Ab; try discriminate; reflexivity).
     rewrite Na, Nb, Cb. simpl orb. cbv iota. unfold is_fuel.
     replace (4 + length st + val_depth va + val_depth vb)
       with (S (S (S (S (length st + val_depth va + val_depth vb))))) by lia.
@@ -406,8 +406,8 @@ Section IsForeign.
       with (S (S (S (S (length st + val_depth va + val_depth (VF t c p u)))))) by lia.
     generalize (length st + val_depth va + val_depth (VF t c p u)). intros n.
     rewrite loop_S, Aa.
-    assert (Hne : (if comparable (VF t c p u) then iface_eq va (VF t c p u) else Ok false) = Ok false).
-    { destruct va; simpl in Aa; try discriminate; simpl; destruct c; reflexivity. }
+    assert (Hne : (if type_comparable (VF t c p u) then iface_eq va (VF t c p u) else Ok false) = Ok false).
+    { destruct va; simpl in Aa; try discriminate; simpl; destruct (c || deep_tid t); reflexivity. }
     rewrite Hne. cbn [bind_true]. rewrite (gis_foreign i ci t c p u _ Ei).
     destruct (conv_match (c_g ci) (VF t c p u)) eqn:M; cbn [bind_true]; [reflexivity|].
     assert (Ua : unwrap_val st va = g_fref (c_g ci)).
@@ -415,41 +415,46 @@ Section IsForeign.
     rewrite Ua.
     destruct (W i ci Ei) as [Fi Si Li _ | o co Fi Eo Fo So Lo _ Pi PLi]; rewrite Fi; [reflexivity|].
     rewrite loop_S. cbn [as_gerror].
-    assert (Hne2 : (if comparable (VF t c p u) then iface_eq (VG o) (VF t c p u) else Ok false) = Ok false).
-    { simpl; destruct c; reflexivity. }
+    assert (Hne2 : (if type_comparable (VF t c p u) then iface_eq (VG o) (VF t c p u) else Ok false) = Ok false).
+    { simpl; destruct (c || deep_tid t); reflexivity. }
     rewrite Hne2. cbn [bind_true]. rewrite (gis_foreign o co t c p u _ Eo). unfold conv_match.
     rewrite So, Lo. simpl. rewrite Eo, Fo. reflexivity.
   Qed.
 End IsForeign.
 
 (* ---------------------------------------------------------------- foreign sources *)
+(* the stdlib's own `err == target`: a foreign source against a target that is not deeply
+   non-comparable (for two foreign errors of one deeply non-comparable dynamic type the stdlib
+   itself panics; no gerror code is involved there) *)
 Lemma foreign_eq_test t c p u vb :
-  exists b0, (if comparable vb then iface_eq (VF t c p u) vb else Ok false) = Ok b0
+  deep vb = false ->
+  exists b0, (if type_comparable vb then iface_eq (VF t c p u) vb else Ok false) = Ok b0
              /\ (is_gerr_val vb = true -> b0 = false).
 Proof.
+  intros Dp.
   destruct vb as [|k|k|t' c' p' u']; simpl; try (exists false; split; [reflexivity|auto]).
-  destruct c'; simpl.
+  simpl in Dp. destruct c'; simpl in *.
   - destruct (N.eqb t t'); simpl; [|exists false; split; [reflexivity|auto]].
     destruct c; simpl; eexists; (split; [reflexivity|intros H; discriminate]).
-  - exists false. split; [reflexivity|auto].
+  - rewrite Dp. exists false. split; [reflexivity|auto].
 Qed.
 
 (* a foreign error without gerror values in its Unwrap chain, as the source of errors.Is:
    never a panic, and never a match with a gerror target *)
 Lemma loop_foreign_src guard st vb tc :
-  tc = comparable vb ->
+  tc = type_comparable vb -> deep vb = false ->
   forall u t c p f, pure u = true -> val_depth u <= f ->
   exists b, errors_is_loop guard (S f) st (VF t c p u) vb tc = Ok b
             /\ (is_gerr_val vb = true -> b = false).
 Proof.
-  intros ->. induction u as [|i|i|t0 c0 p0 u0 IH]; intros t c p f P D; simpl in P; try discriminate.
+  intros -> Dp. induction u as [|i|i|t0 c0 p0 u0 IH]; intros t c p f P D; simpl in P; try discriminate.
   - rewrite loop_S. cbn [as_gerror unwrap_val].
-    destruct (foreign_eq_test t c p VNil vb) as [b0 [E0 G0]]. rewrite E0.
+    destruct (foreign_eq_test t c p VNil vb Dp) as [b0 [E0 G0]]. rewrite E0.
     destruct b0; cbn [bind_true].
     + exists true. split; [reflexivity|exact G0].
     + exists false. split; [reflexivity|auto].
   - rewrite loop_S. cbn [as_gerror unwrap_val].
-    destruct (foreign_eq_test t c p (VF t0 c0 p0 u0) vb) as [b0 [E0 G0]]. rewrite E0.
+    destruct (foreign_eq_test t c p (VF t0 c0 p0 u0) vb Dp) as [b0 [E0 G0]]. rewrite E0.
     destruct b0; cbn [bind_true].
     + exists true. split; [reflexivity|exact G0].
     + simpl in D. destruct f as [|f]; [lia|].
@@ -457,16 +462,104 @@ Proof.
 Qed.
 
 Lemma errors_is_foreign_src guard st t c p u vb :
-  pure u = true ->
+  pure u = true -> deep vb = false ->
   exists b, errors_is_gen guard st (VF t c p u) vb = Ok b /\ (is_gerr_val vb = true -> b = false).
 Proof.
-  intros P. unfold errors_is_gen. simpl is_nil. simpl orb.
+  intros P Dp. unfold errors_is_gen. simpl is_nil. simpl orb.
   destruct (is_nil vb) eqn:Nb.
   - destruct vb; simpl in Nb; try discriminate. exists false. split; [reflexivity|auto].
   - unfold is_fuel.
     replace (4 + length st + val_depth (VF t c p u) + val_depth vb)
       with (S (3 + length st + val_depth (VF t c p u) + val_depth vb)) by lia.
-    apply loop_foreign_src; [reflexivity|exact P|simpl; lia].
+    apply loop_foreign_src; [reflexivity|exact Dp|exact P|simpl; lia].
+Qed.
+
+(* ---- a foreign source whose Unwrap chain ends in a valid gerror value (fmt.Errorf("%w", gerr)) ---- *)
+(* the loop of errors.Is on a gerror source and a foreign target, any fuel of at least 2, any tc *)
+Lemma loop_gf st (W : wf st) va i ci t c p u n tc :
+  gv st va = Some i -> nth_error st i = Some ci ->
+  errors_is_loop true (S (S n)) st va (VF t c p u) tc = Ok (conv_match (c_g ci) (VF t c p u)).
+Proof.
+  intros Ga Ei. destruct (gv_cell _ _ _ Ga) as [ci' [Ei' Aa]]. rewrite Ei in Ei'. injection Ei' as <-.
+  rewrite loop_S, Aa.
+  assert (Hne : (if tc then iface_eq va (VF t c p u) else Ok false) = Ok false).
+  { destruct va; simpl in Aa; try discriminate; simpl; destruct tc; reflexivity. }
+  rewrite Hne. cbn [bind_true]. rewrite (gis_foreign st W i ci t c p u _ Ei).
+  destruct (conv_match (c_g ci) (VF t c p u)) eqn:M; cbn [bind_true]; [reflexivity|].
+  assert (Ua : unwrap_val st va = g_fref (c_g ci)).
+  { destruct va; simpl in Aa; try discriminate; injection Aa as ->; simpl; rewrite Ei; reflexivity. }
+  rewrite Ua.
+  destruct (W i ci Ei) as [Fi Si Li _ | o co Fi Eo Fo So Lo _ Pi PLi]; rewrite Fi; [reflexivity|].
+  rewrite loop_S. cbn [as_gerror].
+  assert (Hne2 : (if tc then iface_eq (VG o) (VF t c p u) else Ok false) = Ok false).
+  { simpl; destruct tc; reflexivity. }
+  rewrite Hne2. cbn [bind_true]. rewrite (gis_foreign st W o co t c p u _ Eo). unfold conv_match.
+  rewrite So, Lo. simpl. rewrite Eo, Fo. reflexivity.
+Qed.
+
+Lemma chain_ok_gv st v : is_gerr_val v = true -> chain_ok st v = true -> exists i, gv st v = Some i.
+Proof.
+  destruct v as [|i|i|]; simpl; try discriminate; intros _.
+  - destruct (nth_error st i); [eauto|discriminate].
+  - destruct (nth_error st i) as [c|]; [|discriminate]. destruct (c_x c); [eauto|discriminate].
+Qed.
+
+(* any admissible foreign source (wrappers ending in nil or in a valid gerror value) against a
+   non-nil admissible target that is not deeply non-comparable: no panic, fuel suffices *)
+Lemma loop_foreign_any st (W : wf st) vb :
+  is_nil vb = false ->
+  ((exists j, gv st vb = Some j) \/ (exists t c p u, vb = VF t c p u)) ->
+  deep vb = false ->
+  forall u t c p f, chain_ok st u = true -> 4 + val_depth u <= f ->
+  exists b, errors_is_loop true (S f) st (VF t c p u) vb (type_comparable vb) = Ok b.
+Proof.
+  intros Nb Hb Dp. induction u as [|i|i|t0 c0 p0 u0 IH]; intros t c p f P D.
+  - rewrite loop_S. cbn [as_gerror unwrap_val].
+    destruct (foreign_eq_test t c p VNil vb Dp) as [b0 [E0 _]]. rewrite E0.
+    destruct b0; cbn [bind_true]; eauto.
+  - (* the wrapper holds the *GError of cell i *)
+    rewrite loop_S. cbn [as_gerror unwrap_val].
+    destruct (foreign_eq_test t c p (VG i) vb Dp) as [b0 [E0 _]]. rewrite E0.
+    destruct b0; cbn [bind_true]; [eauto|].
+    destruct (chain_ok_gv st (VG i) eq_refl P) as [k Gk].
+    destruct f as [|[|[|[|f]]]]; simpl in D; try lia.
+    destruct Hb as [[j Gb]|[t' [c' [p' [u' ->]]]]].
+    + assert (Cb : type_comparable vb = true) by (destruct vb; simpl in Gb; try discriminate; reflexivity).
+      rewrite Cb. rewrite (loop_gg true st W (VG i) vb k j f Gk Gb). eauto.
+    + destruct (gv_cell _ _ _ Gk) as [ck [Ek _]].
+      rewrite (loop_gf st W (VG i) k ck t' c' p' u' _ _ Gk Ek). eauto.
+  - rewrite loop_S. cbn [as_gerror unwrap_val].
+    destruct (foreign_eq_test t c p (VX i) vb Dp) as [b0 [E0 _]]. rewrite E0.
+    destruct b0; cbn [bind_true]; [eauto|].
+    destruct (chain_ok_gv st (VX i) eq_refl P) as [k Gk].
+    destruct f as [|[|[|[|f]]]]; simpl in D; try lia.
+    destruct Hb as [[j Gb]|[t' [c' [p' [u' ->]]]]].
+    + assert (Cb : type_comparable vb = true) by (destruct vb; simpl in Gb; try discriminate; reflexivity).
+      rewrite Cb. rewrite (loop_gg true st W (VX i) vb k j f Gk Gb). eauto.
+    + destruct (gv_cell _ _ _ Gk) as [ck [Ek _]].
+      rewrite (loop_gf st W (VX i) k ck t' c' p' u' _ _ Gk Ek). eauto.
+  - rewrite loop_S. cbn [as_gerror unwrap_val].
+    destruct (foreign_eq_test t c p (VF t0 c0 p0 u0) vb Dp) as [b0 [E0 _]]. rewrite E0.
+    destruct b0; cbn [bind_true]; [eauto|].
+    simpl in P, D. destruct f as [|f]; [lia|].
+    apply (IH t0 c0 p0 f P). lia.
+Qed.
+
+Lemma errors_is_foreign_any st t c p u vb :
+  wf st -> chain_ok st u = true ->
+  (vb = VNil \/ (exists j, gv st vb = Some j) \/ (exists t' c' p' u', vb = VF t' c' p' u')) ->
+  deep vb = false ->
+  exists b, errors_is st (VF t c p u) vb = Ok b.
+Proof.
+  intros W P Hb Dp. unfold errors_is, errors_is_gen. simpl is_nil. simpl orb.
+  destruct (is_nil vb) eqn:Nb.
+  - destruct vb; simpl in Nb; try discriminate. exists false. reflexivity.
+  - assert (Hb' : (exists j, gv st vb = Some j) \/ (exists t' c' p' u', vb = VF t' c' p' u')).
+    { destruct Hb as [->|[H|H]]; [discriminate|auto|auto]. }
+    unfold is_fuel.
+    replace (4 + length st + val_depth (VF t c p u) + val_depth vb)
+      with (S (4 + length st + val_depth u + val_depth vb)) by (simpl; lia).
+    apply (loop_foreign_any st W vb Nb Hb' Dp u t c p); [exact P|lia].
 Qed.
 
 (* ---------------------------------------------------------------- ExtractFactoryReference *)
@@ -491,10 +584,16 @@ Proof.
   eapply ShDer; eauto. rewrite nth_error_app1; [exact Eo|]. apply nth_error_Some. congruence.
 Qed.
 
-Lemma pure_admissible_serr st v : admissible st v -> is_gerr_val v = false -> pure v = true.
+Lemma pure_chain_ok st v : pure v = true -> chain_ok st v = true.
+Proof. induction v; simpl; intros H; try discriminate; auto. Qed.
+
+Lemma chain_ok_extend st ext v : chain_ok st v = true -> chain_ok (st ++ ext) v = true.
 Proof.
-  intros [->|[[i G]|[t [c [p [u [-> P]]]]]]] Hg; simpl; auto.
-  destruct v; simpl in *; try discriminate.
+  induction v as [|i|i|t c p u IH]; simpl; auto.
+  - destruct (nth_error st i) eqn:E; [|discriminate]. intros _.
+    rewrite nth_error_app1 by (apply nth_error_Some; congruence). rewrite E. reflexivity.
+  - destruct (nth_error st i) as [c|] eqn:E; [|discriminate]. intros H.
+    rewrite nth_error_app1 by (apply nth_error_Some; congruence). rewrite E. exact H.
 Qed.
 
 Lemma nth_error_snoc_inv {A} (l : list A) x i y :
@@ -533,8 +632,7 @@ Lemma clone_shape st i ci w a xo bp ep :
         (mkC (apply_wiring w (c_g ci) bp ep a) xo).
 Proof.
   intros W Ei -> Adm Ng.
-  assert (Pe : pure (eval_e a (w_serr w)) = true).
-  { destruct (w_serr w); simpl in *; [reflexivity|]. apply (pure_admissible_serr st); assumption. }
+  assert (Pe : is_gerr_val (eval_e a (w_serr w)) = false) by exact Ng.
   destruct (clone_fields w (c_g ci) (VG i) ep a) as [Hr [Hs [Hl Hf]]].
   set (g' := apply_wiring w (c_g ci) (VG i) ep a) in *.
   set (ne := eval_e a (w_serr w)) in *.
@@ -553,7 +651,7 @@ Proof.
     + rewrite Hl. unfold later_after.
       destruct (is_nil (g_serr (c_g ci)) && negb (is_nil ne)); [exact PLi|].
       destruct (negb (is_nil ne)); [|exact PLi].
-      rewrite forallb_app, PLi. simpl. rewrite Pe. reflexivity.
+      rewrite forallb_app, PLi. simpl. unfold fgn. rewrite Pe. reflexivity.
 Qed.
 
 Lemma base_wiring_guarded : guarded_wiring base_wiring.
